@@ -9,7 +9,8 @@ import (
 // pipe is the in-memory, monitored packet transport handed to the real mux through the
 // ssh.VerifC35PacketConn hook. The harness is the peer: packets it wants the client to read are
 // queued with send (unbounded, so the scripted peer never blocks); every packet the client writes is
-// handed synchronously to onWrite (wire order = call order).
+// handed synchronously to onWrite (wire order = call order); the caller's slice is clobbered afterwards, as an
+// in-place cipher would do.
 type pipe struct {
 	mu      sync.Mutex
 	cond    *sync.Cond
@@ -33,6 +34,12 @@ func (p *pipe) WritePacket(b []byte) error {
 		return io.EOF
 	}
 	p.onWrite(append([]byte(nil), b...))
+	// The real aes*-ctr / arcfour packet ciphers encrypt the slice handed to writePacket IN PLACE: after the call
+	// the caller's buffer holds ciphertext. This transport records a copy and then scribbles over the caller's
+	// slice the same way, so code that re-uses (parts of) a packet buffer after writePacket shows up on the wire.
+	for i := range b {
+		b[i] = ^b[i] ^ byte(i*7)
+	}
 	return nil
 }
 
